@@ -642,6 +642,13 @@ def big_bits(b, rnd, kinds, nobj=1, fills=(0,)):
                     b.qbig(o, m, [k for k in ks if k >= 0], form="abs")
                     js = sorted(set([-70000, -2, -1, 0, 1, 2, c // 2, c - 1, c, c + 1] + [rnd.randrange(max(1, c)) for _ in range(8)]))
                     b.qbig(o, m, js, form="rel")
+                if kind in ("BV", "BVM", "DA0", "DA1"):
+                    # position iterators started inside the leading run, at its end, inside and after the tail
+                    for r in (-3, -1, 0, 1, n // 2, n - 1, n, n + 5):
+                        b.ithbig(o, "ones_with_pos", rel=r, cnt=5)
+                        b.ithbig(o, "zeros_with_pos", rel=r, cnt=5)
+                    b.ithbig(o, "ones", cnt=4)
+                    b.ithbig(o, "zeros", cnt=4)
                 b.drop(o)
 
 
